@@ -10,6 +10,8 @@ TABLES = ["Registries"]
 LAKE_TARGETS = ["Moclo.Props.C20", "Moclo.Tables.Registries"]
 THEOREMS = ["Moclo.C20." + t for t in ["lookup_absent", "setdefault_keys", "setdefault_lookup", "add_spec",
                                        "combine_spec", "len_eq_keys", "iterated_key_found", "embedded_coherent", "resistance_from_table", "resistance_known"]]
+# reductions under which a failing case stays a case of this property (see shrink.py)
+SHRINK = {"lists": ["members", "real_members", "files", "dirs", "junk", "labels"], "keep_one": []}
 RULE = ("the five embedded registries, every item (exhaustive); in-memory directories of typed GenBank plasmids "
         "under supported (.gb, .gbk) and unsupported extensions, dotted stems, sub-directories and non-GenBank "
         "files; combinations of embedded, directory and synthetic registries with overlapping and repeated "
@@ -172,6 +174,7 @@ def check_combine(ctx, case):
     members = [[(int(k), int(v)) for k, v in m] for m in case["members"]]
     comb = CombinedRegistry()
     nest = case.get("nest", [])
+    inners = []        # (inner combination, what it held when it was added)
     i = 0
     while i < len(members):
         if i in nest:
@@ -181,11 +184,18 @@ def check_combine(ctx, case):
             while j < len(members) and (j == i or j in nest):
                 inner << ListRegistry([("k%d" % k, v) for k, v in members[j]])
                 j += 1
+            inners.append((inner, [(k, inner[k].entity[1]) for k in inner]))
             comb << inner
             i = j
         else:
             comb << ListRegistry([("k%d" % k, v) for k, v in members[i]])
             i += 1
+    # a member is only read: whatever is added to the outer combination afterwards, it holds what it held
+    for inner, held in inners:
+        now = [(k, inner[k].entity[1]) for k in inner]
+        if now != held or len(inner) != len(held):
+            ctx.fail("a combination used as a member of another one changed when further members were added to the "
+                     "outer one: it held {} and now holds {}".format(held, now), case)
     keys = list(comb)
     union = []
     for m in members:
